@@ -63,6 +63,9 @@ AcceptVerdicts(b, pre, res, ctx, what) ==
                 IF KF_CovCache(b, cm, h, ctx) THEN "KF-covenant-cache" ELSE "")} ELSE {})
   \cup (IF ok /\ ~c.fees THEN {V("C05", "accepted a transaction paying less than the minimum fee", "")} ELSE {})
   \cup (IF ok /\ ~c.unlocked THEN {V("C13", "accepted a spend of a coin locked by a stake", "")} ELSE {})
+  \* the fee is how a covenant's weight is charged (C11: "its weight - the quantity the spender is charged for")
+  \cup (IF ok /\ ~c.fees /\ \E i \in DOMAIN b : Lt(b[i].fee, MinFee(b[i], pre.feeMult)) /\ \E j \in DOMAIN b[i].covs : CovWeight(b[i].covs[j]) # Zero
+        THEN {V("C11", "accepted a spend that does not pay for the weight of the covenants it carries", "")} ELSE {})
   \* C02's acceptance condition names the same three clauses: authorised, unlocked, fee-paying
   \cup (IF ok /\ c.resolvable /\ (~c.covenants \/ ~c.fees \/ ~c.unlocked)
         THEN {V("C02", "accepted a batch with a member that is not authorised, not unlocked or not fee-paying", "")} ELSE {})
